@@ -99,6 +99,11 @@ EXPRESSION_PATTERN = re.compile(
     r"^[A-Za-z_][A-Za-z0-9_.\-]*(?<!-)([" + _UNICODE_OPS + r"][A-Za-z_][A-Za-z0-9_.\-]*(?<!-))+\Z"
 )
 
+# A reserved word at the start of a bare token, or directly after an operator, is re-lexed
+# as a boolean/null literal or as the tension operator (true-a, A\u2192null, vs.x), which loses
+# or corrupts the value on re-read. Such values must be quoted.
+_RESERVED_WORD_RELEXED_PATTERN = re.compile(r"(?:^|[" + _UNICODE_OPS + r"])(?:true|false|null|vs)\b")
+
 
 def _sort_children_by_key(children: list[Any]) -> list[Any]:
     """Sort AST children by key for key_sorting option.
@@ -141,6 +146,10 @@ def needs_quotes(value: Any) -> bool:
     # Reserved words need quotes to avoid becoming literals or operators
     # This includes boolean/null literals and operator keywords
     if value in ("true", "false", "null", "vs"):
+        return True
+
+    # Reserved word where the lexer would start a new token (start of value or after an operator)
+    if _RESERVED_WORD_RELEXED_PATTERN.search(value):
         return True
 
     # Issue #181: Variables ($VAR, $1:name) don't need quotes
